@@ -40,6 +40,7 @@ def run(ctx, chk):
     chk.rule("C14.R2", "no production mixes operand widths or takes two memory operands", floor=100)
     chk.rule("C14.R3", "driver gates dominate loading and execution", floor=3)
     chk.rule("C14.R4", "preprocess turns every parser error into Err", floor=1)
+    chk.rule("C14.R5", "forward references are recorded without loss until the driver checks them", floor=2)
 
     def cond_rule(nt, cond_pred, name, desc):
         if nt not in GA.nts:
@@ -140,6 +141,7 @@ def run(ctx, chk):
             else:
                 chk.ok("C14.R2", label, f"classes {classes or ['-']}, memory operands {mems}")
 
+    forward_reference_record(ctx, chk)
     # ---- R3 driver gates
     drv = ctx.program.by_name.get(("bin", "driver::driver::CMDDriver::run"))
     if drv is None:
@@ -238,3 +240,75 @@ def run(ctx, chk):
             chk.violation("C14.R4", "preprocess", "err-becomes-ok", "a parser error can reach `Ok(..)` in preprocess()", pp["span"])
         else:
             chk.ok("C14.R4", "preprocess", "the Err arm never reaches the Ok result")
+
+
+def forward_reference_record(ctx, chk):
+    """C14.R5: a jump to a label that is not defined yet is recorded by the assembler and checked by the driver after
+    the whole text was read.  The record must not be able to lose an entry: a set/vector of (position, name) pairs, or a
+    map keyed by something that contains the name.  (A map keyed by the position alone overwrites entries: positions
+    inside macro expansions are offsets into the expanded text and collide.)  And every path of the jump action that finds
+    the label undefined must insert into the record."""
+    import re
+    P = ctx.program
+    adt = P.adts.get("util::preprocessor_util::Context")
+    fty = dict(adt["variants"][0]["fields"]).get("undefined_labels") if adt else None
+    where = "src/lib/util/preprocessor_util.rs"
+    if fty is None:
+        chk.violation("C14.R5", "Context", "no-forward-reference-record", "the assembler context no longer records jumps to labels defined later", where)
+        return
+    m = re.match(r"^(?:std::collections::)?(?:hash_map::|btree_map::|hash_set::|btree_set::)?(HashSet|BTreeSet|Vec|VecDeque|HashMap|BTreeMap)<(.*)>$", fty)
+    if not m:
+        chk.undecided_("C14.R5", "Context.undefined_labels", f"container type {fty} not recognised")
+    else:
+        kind, inner = m.group(1), m.group(2)
+        if kind in ("HashSet", "BTreeSet", "Vec", "VecDeque"):
+            if "String" in inner or "str" in inner:
+                chk.ok("C14.R5", "Context.undefined_labels:type", f"{kind} of entries that contain the label name: no entry can replace another label's entry")
+            else:
+                chk.violation("C14.R5", "Context.undefined_labels", "record-without-name", f"{fty} does not keep the label names", where)
+        else:
+            # map: the key is the first type argument
+            depth = 0
+            key = inner
+            for i, c in enumerate(inner):
+                if c in "<([":
+                    depth += 1
+                elif c in ">)]":
+                    depth -= 1
+                elif c == "," and depth == 0:
+                    key = inner[:i]
+                    break
+            if "String" in key or "str" in key:
+                chk.ok("C14.R5", "Context.undefined_labels:type", f"{kind} keyed by {key.strip()}: one entry per label name")
+            else:
+                chk.violation("C14.R5", "Context.undefined_labels", "record-keyed-without-name",
+                              f"forward references are recorded in a {kind} keyed by {key.strip()}: two jumps recorded under the same key (positions inside macro expansions "
+                              f"are offsets into the expanded text and repeat) overwrite each other, so an undefined label can escape the driver's check", where)
+    # the assembler action: the path on which the label is unknown inserts into the record
+    from asm import GramEval
+    GA = ctx.gram("preprocessor")
+    E = GramEval(GA)
+    for k, p in enumerate(GA.productions("jmps_loops")) if "jmps_loops" in GA.nts else []:
+        label = GA.prod_label("jmps_loops", k)
+        ua = GA.main_user_action(p["action"])
+        paths = [q for q in E.prod_paths("jmps_loops", k) if getattr(q, "action", None) == ua.get("idx")]
+        def is_unknown(q):
+            lm = [c for c in q.conds if "label_map.get" in c[0] or "label_map.contains_key" in c[0]]
+            if not lm:
+                return False
+            for c in lm:
+                some = ("Some" in c[0] and c[1]) or ("contains_key" in c[0] and ("!" in c[0]) != bool(c[1]))
+                if some:
+                    return False
+            return True
+        unknown = [q for q in paths if is_unknown(q)]
+        if not unknown:
+            chk.undecided_("C14.R5", label, "no path for an unknown label found")
+            continue
+        miss = [q for q in unknown if not any(e.kind == "map" and e.target == "context.undefined_labels" and e.op in ("insert", "push") for e in q.effects)
+                and not any(e.kind == "error" for e in q.effects)]
+        if miss:
+            chk.violation("C14.R5", label, "forward-jump-not-recorded", f"{label}: a jump to a label that is not defined (yet) is emitted without being recorded for the driver's check",
+                          f"{GA.g['file']}:{p['line']}")
+        else:
+            chk.ok("C14.R5", label, "unknown label => recorded in undefined_labels (or rejected)")
